@@ -36,3 +36,16 @@ Theorem C19_wf_examples :
   map (fun s => wf (S_ s)) ("1_0" :: "A00a0" :: "a0A00" :: "" :: "     " :: "-" :: "1 2" :: "+12" :: "1.5" :: "12-" :: "--1" :: "!NotOk" :: nil)%string
   = repeat false 12.
 Proof. exact wf_examples. Qed.
+
+(* blank padding never matters, for EVERY string (well-formed or not): the result — value or ValueError —
+   is that of the unpadded string *)
+Theorem C19_padding_irrelevant : forall (k1 k2 : nat) (s : str),
+  decode (spaces k1 ++ s ++ spaces k2) = decode s.
+Proof. exact decode_padding_irrelevant. Qed.
+Print Assumptions C19_padding_irrelevant.
+
+(* two different representable serials never share an encoding (so decode cannot conflate two atoms) *)
+Theorem C19_encode_injective : forall (w' : nat) (n1 n2 : Z),
+  in_range w' n1 -> in_range w' n2 -> encode w' n1 = encode w' n2 -> n1 = n2.
+Proof. exact encode_injective. Qed.
+Print Assumptions C19_encode_injective.
